@@ -136,3 +136,20 @@ def shape_sig(nodes):
 
 def clone(prog):
     return copy.deepcopy(prog)
+
+
+def add_fault(rng, prog, *, kinds=("recur", "enter"), exc="ValueError"):
+    """Make one leaf raise: in its k-th recur step or in its enter. Returns a description or None."""
+    leaves = [lf for lf in leaves_of(prog["doers"])]
+    if not leaves:
+        return None
+    lf = rng.choice(leaves)
+    kind = rng.choice(list(kinds))
+    if kind == "enter" or lf.get("enter") == "finish":
+        lf["enter"] = "raise"
+        lf["end"] = None
+        return {"leaf": lf["id"], "where": "enter"}
+    last = lf["end"][0] if lf.get("end") else 8
+    k = rng.randint(1, max(1, last))
+    lf["end"] = [k, "raise", exc]
+    return {"leaf": lf["id"], "where": "recur", "step": k, "exc": exc}
